@@ -1027,7 +1027,7 @@ Proof.
 Qed.
 
 (* a worked instance of the precedence rule: E -> E + E | E * E | n with + < * both left associative.
-   after the sort of the rule_infos, rule_info 2 is E + E (prec 1) and rule_info 1 is E * E (prec 2);
+   the stable sort keeps the order of rules(...): rule_info 0 is E + E (prec 1) and rule_info 1 is E * E (prec 2);
    terms + = 0, * = 1 *)
 Definition g_arith : grammar :=
   match analyze (mkRG [69] [mkRT [43] 1%Z Ltor; mkRT [42] 2%Z Ltor; mkRT [110] 0%Z NoAssoc] [[69]]
@@ -1037,9 +1037,9 @@ Definition g_arith : grammar :=
   with Some g => g | None => mkG 0 0 0 0 [] [] [] [] [] [] [] [] end.
 
 Example arith_choices :
-  map ri_r (rule_infos g_arith) = [2; 1; 0; 3] /\
-  sr_choice g_arith 2 0 = KReduce (* E+E . + : left assoc *) /\
-  sr_choice g_arith 2 1 = KShift  (* E+E . * : * binds tighter *) /\
+  map ri_r (rule_infos g_arith) = [0; 1; 2; 3] /\
+  sr_choice g_arith 0 0 = KReduce (* E+E . + : left assoc *) /\
+  sr_choice g_arith 0 1 = KShift  (* E+E . * : * binds tighter *) /\
   sr_choice g_arith 1 0 = KReduce (* E*E . + *) /\
   sr_choice g_arith 1 1 = KReduce (* E*E . * : left assoc *).
 Proof. vm_compute. repeat split. Qed.
